@@ -281,7 +281,25 @@ type result struct {
 	execEdge     map[[2]int]bool
 	unknownIfs   int // executable Ifs whose condition is not constant
 	env          map[ssa.Value]aval
+	pin          map[ssa.Value]aval
 	nonconverged bool
+}
+
+// val returns the abstract value of v at the fixpoint (pins first).
+func (r *result) val(v ssa.Value) aval {
+	if p, ok := r.pin[v]; ok {
+		return p
+	}
+	if c, ok := v.(*ssa.Const); ok {
+		if c.Value != nil {
+			return aval{k: kConst, c: c.Value}
+		}
+		return aval{k: kNil}
+	}
+	if a, ok := r.env[v]; ok {
+		return a
+	}
+	return bot
 }
 
 func (r *result) executable(ins ssa.Instruction) bool {
@@ -389,7 +407,7 @@ func (an *analyzer) analyze(fn *ssa.Function, params []aval) *result {
 }
 
 func (an *analyzer) run(fn *ssa.Function, params []aval, free []aval, depth int) *result {
-	res := &result{fn: fn, execBlock: map[int]bool{}}
+	res := &result{fn: fn, execBlock: map[int]bool{}, pin: an.pin}
 	if len(fn.Blocks) == 0 {
 		return res
 	}
